@@ -144,7 +144,10 @@ impl MetaStore {
         partition: PartitionID,
         column_name: &str,
     ) -> Option<String> {
-        self.partitions[table_name][&partition].subpartition_key(column_name)
+        self.partitions
+            .get(table_name)?
+            .get(&partition)?
+            .subpartition_key(column_name)
     }
 
     pub fn subpartition_has_been_loaded(
@@ -153,7 +156,12 @@ impl MetaStore {
         partition: PartitionID,
         column_name: &str,
     ) -> bool {
-        self.partitions[table_name][&partition].subpartition_has_been_loaded(column_name)
+        match self.partitions.get(table_name).and_then(|t| t.get(&partition)) {
+            Some(partition) => partition.subpartition_has_been_loaded(column_name),
+            // A partition that is not (yet, or any longer) in the catalogue has no files to load
+            // from: columns without a handle do not exist.
+            None => true,
+        }
     }
 
     pub fn mark_subpartition_as_loaded(
@@ -162,7 +170,9 @@ impl MetaStore {
         partition: PartitionID,
         column_name: &str,
     ) {
-        self.partitions[table_name][&partition].mark_subpartition_as_loaded(column_name);
+        if let Some(partition) = self.partitions.get(table_name).and_then(|t| t.get(&partition)) {
+            partition.mark_subpartition_as_loaded(column_name);
+        }
     }
 
     pub fn add_wal_segment(&mut self) -> u64 {
